@@ -83,6 +83,16 @@ CHECKS['C16'] = {
     'note': 'Trusted: pyvc; exp and logsumexp are uninterpreted with the listed axioms (A2: reals, no round-off); numpy row reductions opaque pure functions in the relational proof; "within round-off" clauses are numeric/bounded only.',
 }
 
+CHECKS['C14'] = {
+    'level': 'exploration',
+    'technique': 'bounded stand-in: exhaustive enumeration of hypothesis histories against an executable contract (readable set, weight embedding) + bounded-symbolic VCs for normalize_cn (z3 NRA)',
+    'text': ('BOUNDED-EXHAUSTIVE, not proved: every history of <= 3 hypotheses over {a,b} (length <= 3, scores {1,2,.5}, any order) keeps earlier strings '
+             'readable, makes the new one readable in order, loses no weight; normalised positions sum to 1; enumerated paths are all arc combinations once, '
+             'sorted, summing to 1; single hypothesis reads back. normalize_cn additionally bounded-symbolic (all positive weights at 8 small shapes). '
+             'One known finding: a history whose first hypothesis is the empty string.'),
+    'note': 'No unbounded invariant for the list-of-dicts state; executable contract specs/cn.py is the oracle; Python float arithmetic with 1e-9 tolerance.',
+}
+
 NOT_APPLICABLE = {
     'C20': ('equality up to round-off of float tensors produced by torch C++ kernels through module-resident caches across calls: no contract '
             'within reach can state it over reals, no finite domain makes a bounded check exhaustive; a random differential test would be a different technique (DESIGN.md §6)'),
